@@ -67,9 +67,11 @@ def _finalize_worker(args):
         I = lea.Interp(fx, budget=400000)
         I.mode_domains = lea_run.mode_field_domains(fx)
         R = lea_rules.Rules(fx, I)
+        R.in_finalize = True
         I.checkers.append(R.check_segment)
         top = lea_run.symbolic_mode(name, ctor, fields)
-        st = lea_run.base_state([top], ckpt="none", default_bottom=(name == "Default"))
+        # a mode that is entered with a live checkpoint can also meet the end of input with it
+        st = lea_run.base_state([top], ckpt=lea_run.OWNER_MODES.get(name, "none"), default_bottom=(name == "Default"))
         lea_run.seed_mode_facts(fx, st, top)
         lea_prims.set_eof(st, "main", 0, True)
         try:
@@ -165,7 +167,7 @@ def compute(fact_path, jobs=None):
     fr_obs, nfr = lea_rules.frame_balance_obs([r["frames"] for r in results if r.get("frames")])
     for o in fr_obs:
         merged[(o["rule"], o["key"])] = o
-    for o in lea_rules.keyword_length_obs(counts) + lea_rules.replay_agree_obs(counts):
+    for o in lea_rules.keyword_length_obs(counts) + lea_rules.replay_agree_obs(counts) + lea_rules.family_agree_obs(counts):
         merged[(o["rule"], o["key"])] = o
     counts.setdefault("R-FRAME-BALANCE", {})["keyword_paths"] = set(range(nfr))
     counts.setdefault("R-WS-ORDER", {})["push_runs"] = set(range(nruns))
@@ -187,7 +189,7 @@ def engine_hash():
     for fn in ("lea.py", "lea_prims.py", "lea_rules.py", "lea_run.py", "lea_engine.py", "chars.py", "facts.py"):
         with open(os.path.join(here, fn), "rb") as f:
             h.update(f.read())
-    for fn in ("ws_terminated_modes.json", "spellings.json", "preconsume_benign.json", "stop_sets.json"):
+    for fn in ("ws_terminated_modes.json", "spellings.json", "preconsume_benign.json", "stop_sets.json", "family_exceptions.json"):
         with open(os.path.join(os.path.dirname(here), "tables", fn), "rb") as f:
             h.update(f.read())
     return h.hexdigest()[:12]
